@@ -352,6 +352,16 @@ pub fn gen_refs(root: &Path, out: &mut Output) {
                     out.used_intrinsics.len() - rows.len()
                 ));
             }
+            let mem: Vec<String> = out
+                .used_intrinsics
+                .iter()
+                .filter(|n| n.contains("load") || n.contains("store") || n.contains("gather") || n.contains("scatter") || n.contains("stream"))
+                .map(|n| format!("({}, {})", lstr(n), n.contains("loadu") || n.contains("storeu")))
+                .collect();
+            text.push_str(&format!(
+                "/-- intrinsics that access memory, with whether they are the unaligned (`loadu`/`storeu`) form -/\ndef memoryIntrinsics : List (String × Bool) := [{}]\n\n",
+                mem.join(", ")
+            ));
             text.push_str(&format!("def intrinsicFeatures : List (String × List Feat) := [\n  {}\n]\n\n", rows.join(",\n  ")));
         },
         Err(e) => out.errors.push(format!("stdarch_features.tsv: {e}")),
